@@ -526,9 +526,12 @@ def pinned(quick=True):
         S([A, O(ie=("int", 3), seed=8), A, A], [init(1), init(2), fit(3, o=1), fit(4, o=2), init(3), smp(6, 2, o=2), fit(3, o=3), fit(6, 0.25, o=1), init(4), xpost(0.25, o=3),
                                                fit(6, 0.25, o=3), fit(6, 0.25, o=4)],
           pin="same seed, same calls, other objects in between: same evidence; fit(3); fit(6) collects the evidence of fit(6)"),
-        S([O(cheap=False, ie=("int", 3))], [init(), fit(4), smp(6, 2), xres()], pin="default target_model and acquisition_method"),
-        S([O(ie=("int", 3))], [init(), fit(4), smp(6, 2, ini="ok"), xres(), fit(5, 0.25)], dim=2, pin="two parameters"),
     ]
+    if not quick:
+        out += [
+            S([O(cheap=False, ie=("int", 3))], [init(), fit(4), smp(6, 2), xres()], pin="default target_model and acquisition_method"),
+            S([O(ie=("int", 3))], [init(), fit(4), smp(6, 2, ini="ok"), xres(), fit(5, 0.25)], dim=2, pin="two parameters"),
+        ]
     return out
 
 
@@ -591,8 +594,8 @@ def random_scenario(rnd, i):
 
 def scenarios(ctx):
     rnd = random.Random(ctx.seed * 6151 + 977)
-    n_random = 3 if ctx.quick else 60
-    return pinned() + [random_scenario(rnd, i) for i in range(n_random)]
+    n_random = 3 if ctx.quick else 45
+    return pinned(ctx.quick) + [random_scenario(rnd, i) for i in range(n_random)]
 
 
 # ------------------------------------------------------------------------------ design check
@@ -687,20 +690,20 @@ def design_jobs(ctx):
 
     # the repaired machine keeps every user-level invariant, for call sequences of any length
     if q:
-        rep = mc_cfg(ALL_FIXES, INV_MACHINE + INV_USER, kinds=("none", "int"), iens=(0, 3), reqmin=4, props=["EvidenceAppendOnly"])
-        code = mc_cfg([], INV_MACHINE + INV_CODE, props=["EvidenceAppendOnly"])
+        rep = mc_cfg(ALL_FIXES, INV_MACHINE + INV_USER, kinds=("none", "int"), iens=(3,), reqmin=4, props=["EvidenceAppendOnly"])
+        code = mc_cfg([], INV_MACHINE + INV_CODE, kinds=("int", "dict"), bss=(2,), props=["EvidenceAppendOnly"])
     else:
-        big = dict(kinds=("none", "int", "dict"), iens=(0, 2, 3), reqmin=4, upds=(1, 3), bpas=(1, 2), ns=(0, 3, 5, 6), profiles=PROFILES_T, maxposts=2)
-        rep = mc_cfg(ALL_FIXES, INV_MACHINE + INV_USER, props=["EvidenceAppendOnly"], **big)
-        code = mc_cfg([], INV_MACHINE + INV_CODE, props=["EvidenceAppendOnly"], **big)
+        big = dict(kinds=("none", "int", "dict"), iens=(0, 3), reqmin=4, bpas=(1, 2), ns=(0, 3, 6), profiles=PROFILES_T)
+        rep = mc_cfg(ALL_FIXES, INV_MACHINE + INV_USER, props=["EvidenceAppendOnly"], upds=(1, 3), maxposts=2, **big)
+        code = mc_cfg([], INV_MACHINE + INV_CODE, props=["EvidenceAppendOnly"], upds=(2,), maxposts=1, **big)
     add(0, "repaired", rep, 2 if q else 3, expect_actions=ACTIONS, label="BolfiPipeline repaired (all nine repairs): every user-level invariant")
     add(1, "code", code, 2 if q else 3, expect_actions=ACTIONS,
         label="BolfiPipeline as the code is: stagewise = composed, bookkeeping, acquisitions saw all evidence, sample rows, fit reaches, append-only")
     # negative controls: leave one repair out and a user-level invariant breaks; the code machine breaks split independence; batches overshoot
     ctl = []
-    for f in (["posterior_snapshot", "sampling_flag_reset", "arguments_checked_first", "init_scan_checked"] if q else ALL_FIXES):
+    for f in (["posterior_snapshot", "sampling_flag_reset"] if q else ALL_FIXES):
         ctl.append(("without_" + f, mc_cfg([x for x in ALL_FIXES if x != f], INV_USER, kinds=("int", "dict") if f != "empty_result_refused" else ("int",)),
-                    [CONTROL_OF[f]], "BolfiPipeline control: the real pipeline without the repair '%s'" % f))
+                    [CONTROL_OF[f]] + (["NotSamplingOutside", "SplitIndependent"] if f == "sampling_flag_reset" else []), "BolfiPipeline control: the real pipeline without the repair '%s'" % f))
     ctl.append(("code_split", mc_cfg([], ["SplitIndependent"], kinds=("int",), bss=(1,)), ["SplitIndependent"],
                 "BolfiPipeline control: as the code is, the evidence depends on a failed sample() in between (is_sampling left True)"))
     ctl.append(("exactly_requested", mc_cfg(ALL_FIXES, ["ExactlyRequested"], kinds=("int",), bss=(2,)), ["ExactlyRequested"],
@@ -861,7 +864,7 @@ def check_bolfi_pipeline(ctx, design=True):
         bg.join()
     t2 = time.time()
     corr = corruptions(scs, traces)
-    allv = ctx.validate("BolfiPipeline_Trace", traces + [c[2] for c in corr], chunk=max(5, -(-(len(traces) + len(corr)) // 5)), name="bolfip")
+    allv = ctx.validate("BolfiPipeline_Trace", traces + [c[2] for c in corr], chunk=max(8, -(-(len(traces) + len(corr)) // (3 if ctx.quick else 6))), name="bolfip")
     verdicts = allv[:len(traces)]
     timing = "recording %.1fs, design check finished %.1fs later, trace validation %.1fs" % (t1 - t0, t2 - t1, time.time() - t2)
     ctx.traces_validated -= len(corr)                # corrupted copies are not executions of the real code
@@ -902,7 +905,7 @@ def check_bolfi_pipeline(ctx, design=True):
         "BOLFI pipeline: update() / prepare_new_batch() called directly by the user; async_acq; plotting; pools",
         "BOLFI pipeline: the values of the chains (C08 / C09) and of the posterior (C10)"]
     ctx.notes.append("BOLFI pipeline extension: %d histories (%d pinned), %d calls, %d refused (ValueError), %d raised otherwise; user-level invariants "
-                     "violated on observed states (histories): %s; %s" % (len(scs), len(pinned()), ncalls, nrefused, nraised,
+                     "violated on observed states (histories): %s; %s" % (len(scs), len(pinned(ctx.quick)), ncalls, nrefused, nraised,
                                                                         ", ".join("%s=%d" % kv for kv in sorted(inv_count.items())) or "none", timing))
     if traces:
         ctx.sample(dict(scenario=dict(scs[0], calls=scs[0]["calls"][:4]),
